@@ -314,6 +314,18 @@ def run_family(ctx, sut, monitors, fpm, rng, chain):
                         out_p, res_p, exc_p = sut.call(anc, res_c)
                         out_a, _res_a, exc_a = sut.call(sut.Array(anc), [res_c])
                         ctx.count("instance_where_parent_expected")
+                        # an instance of the parent and an instance of the child are different things even
+                        # when they hold the same data (as instances of two flat classes would be)
+                        out_anc, anc_inst, _ = sut.call(anc, copy.deepcopy(value))
+                        if out_anc == "ok" and isinstance(anc_inst, sut.Object) and type(anc_inst) is not type(res_c):
+                            out_u, _ru, exc_u = sut.call(sut.Array(sut.Element(), uniqueItems=True), [anc_inst, res_c])
+                            out_e, _re, _ = sut.call(sut.Element(enum=[anc_inst]), res_c)
+                            ctx.count("parent_and_child_instances_compared")
+                            if out_u != "ok" or out_e == "ok":
+                                ctx.witness("child_instance_equals_parent_instance",
+                                            {**case, "level": level, "value": value},
+                                            f"[{anc.__name__}(v), L{level}(v)] under uniqueItems -> {out_u} {exc_u!r}; "
+                                            f"enum=[{anc.__name__}(v)] on L{level}(v) -> {out_e}"[:400])
                         if out_p != "ok" or res_p is not res_c or out_a != "ok" or fpm.fp_result(res_c) != held:
                             ctx.witness("child_instance_refused_by_parent", {**case, "level": level, "value": value},
                                         f"{anc.__name__}(instance of L{level}) -> {out_p} {exc_p!r}; "
@@ -340,7 +352,7 @@ def run_family(ctx, sut, monitors, fpm, rng, chain):
     gen = gen_dsl.Gen(rng, max_depth=0, classes=False, share=0.0)
     ops = []
     for _ in range(rng.randint(2, 6)):
-        op = rng.choice(["prop_add", "prop_del", "prop_flip_required", "class_kw", "validate"])
+        op = rng.choice(["prop_add", "prop_del", "prop_flip_required", "class_kw", "class_kw_in_place", "validate"])
         try:
             if op == "prop_add":
                 name = rng.choice(gen_dsl.PY_NAMES)
@@ -354,6 +366,23 @@ def run_family(ctx, sut, monitors, fpm, rng, chain):
                     continue
                 prop = leaf.properties[rng.choice(sorted(leaf.properties))]
                 prop.required = not prop.required
+            elif op == "class_kw_in_place":
+                # reconfigure the child by editing the keyword value it HAS (possibly the one it inherited)
+                candidates = [key for key in ("required", "enum", "dependencies", "patternProperties")
+                              if isinstance(getattr(leaf, key, None), (list, dict))]
+                if not candidates:
+                    continue
+                key = rng.choice(candidates)
+                held = getattr(leaf, key)
+                if key == "required":
+                    held.append(rng.choice(["zzz", "a", "q"]))
+                elif key == "enum":
+                    held.append({"in_place": 1})
+                elif key == "dependencies":
+                    held["zz"] = ["in_place"]
+                else:
+                    held["^in_place"] = sut.Nothing()
+                ctx.count("childop.in_place." + key)
             elif op == "class_kw":
                 key = rng.choice(["minProperties", "maxProperties", "required", "additionalProperties",
                                   "const", "enum", "default", "patternProperties", "dependencies"])
